@@ -12,56 +12,77 @@ theorem decodeQ_base {dec : Section → Section} {c : Col} {v : SVal} (h : ImgBa
     decodeQ dec c = .ok v := by
   cases h <;> simp_all [decodeQ, Codec.decode, Col.toQ, Op.toQ, runOps, step, ofSection, natsOf, natsToInts]
 
-/-- The free `decode` reads the same `v` from every base image whose codec is `Supported`. -/
-theorem decode2_base {dec : Section → Section} {c : Col} {v : SVal} (h : ImgBase c v)
-    (hs : Supported c.ops = true) : decode2 dec c = .ok v := by
+theorem unhexAll_eq {u : Bool} {total used : Nat} {es : List (List Nat)} {r : List Bytes}
+    (h : unhexAll u total used es = .ok r) : r = hexAll u es := by
+  induction es generalizing used r with
+  | nil => simp [unhexAll] at h; simp [hexAll, h]
+  | cons e es ih =>
+    simp only [unhexAll] at h
+    split at h
+    · cases hr : unhexAll u total (used + (hexEncode u e).length) es with
+      | error f => simp [hr] at h
+      | ok r' =>
+        simp only [hr] at h
+        cases h
+        simp [hexAll, ih hr] 
+    · cases h
+
+/-- The free `decode` reads the same `v` from every base image. -/
+theorem decode2_base {dec : Section → Section} {c : Col} {v : SVal} (h : ImgBase c v) :
+    decode2 dec c = .ok v := by
   cases h with
-  | intCast n w hw d => cases w <;> simp_all [intWidth, decode2, run2, step2, ofSection, castNat]
-  | intAdd n w hw x d r h => cases w <;> simp_all [intWidth, decode2, run2, step2, ofSection, castNat]
-  | intDelta n w hw d r h => cases w <;> simp_all [intWidth, decode2, run2, step2, ofSection, castNat]
+  | intCast n w hw d => cases w <;> simp_all [intWidth, decode2, run2, step2, arm2, ofSection, castNat]
+  | intAdd n w hw x d r h => cases w <;> simp_all [intWidth, decode2, run2, step2, arm2, ofSection, castNat]
+  | intDelta n w hw d r h => cases w <;> simp_all [intWidth, decode2, run2, step2, arm2, ofSection, castNat]
   | intAddDelta n w hw x d r1 r h1 h =>
-      cases w <;> simp_all [intWidth, decode2, run2, step2, ofSection, castNat, castI64]
-  | intCastN n w hw d bm => simp [Supported, elementwiseAfterNullable] at hs
-  | intAddN n w hw x d bm r h => simp [Supported, elementwiseAfterNullable] at hs
+      cases w <;> simp_all [intWidth, decode2, run2, step2, arm2, ofSection, castNat, castI64]
+  | intCastN n w hw d bm =>
+      cases w <;> simp_all [intWidth, decode2, run2, step2, arm2, ofSection, castNat, makeNullable]
+  | intAddN n w hw x d bm r h =>
+      cases w <;> simp_all [intWidth, decode2, run2, step2, arm2, ofSection, castNat, makeNullable]
   | intDeltaN n w hw d bm r h =>
-      cases w <;> simp_all [intWidth, decode2, run2, step2, ofSection, castNat, makeNullable]
+      cases w <;> simp_all [intWidth, decode2, run2, step2, arm2, ofSection, castNat, makeNullable]
   | intAddDeltaN n w hw x d bm r1 r h1 h =>
-      cases w <;> simp_all [intWidth, decode2, run2, step2, ofSection, castNat, castI64, makeNullable]
+      cases w <;> simp_all [intWidth, decode2, run2, step2, arm2, ofSection, castNat, castI64, makeNullable]
   | i64Plain n d => simp [decode2, run2, ofSection]
-  | i64Delta n d r h => simp_all [decode2, run2, step2, ofSection, castI64]
-  | i64N n d bm => simp [decode2, run2, step2, ofSection, castNat, makeNullable]
-  | i64DeltaN n d r bm h => simp_all [decode2, run2, step2, ofSection, castNat, castI64, makeNullable]
+  | i64Delta n d r h => simp_all [decode2, run2, step2, arm2, ofSection, castI64]
+  | i64N n d bm => simp [decode2, run2, step2, arm2, ofSection, castNat, makeNullable]
+  | i64DeltaN n d r bm h => simp_all [decode2, run2, step2, arm2, ofSection, castNat, castI64, makeNullable]
   | f64Plain n d => simp [decode2, run2, ofSection]
-  | f64N n d bm => simp [decode2, run2, step2, ofSection, castNat, makeNullable]
+  | f64N n d bm => simp [decode2, run2, step2, arm2, ofSection, castNat, makeNullable]
   | dict n w hw ix ranges data r h =>
-      cases w <;> simp_all [intWidth, decode2, run2, step2, ofSection, castNat]
-  | dictN n w hw ix ranges data bm r h => simp [Supported, elementwiseAfterNullable] at hs
-  | packed n d r h => simp_all [decode2, run2, step2, ofSection, castNat]
-  | packedN n d bm r h => simp_all [decode2, run2, step2, ofSection, castNat, makeNullable]
-  | hex n u total d es r h1 h => simp [Supported, hasUnhex] at hs
-  | hexN n u total d bm es r h1 h => simp [Supported, hasUnhex] at hs
+      cases w <;> simp_all [intWidth, decode2, run2, step2, arm2, ofSection, castNat]
+  | dictN n w hw ix ranges data bm r h =>
+      cases w <;> simp_all [intWidth, decode2, run2, step2, arm2, ofSection, castNat, makeNullable]
+  | packed n d r h => simp_all [decode2, run2, step2, arm2, ofSection, castNat]
+  | packedN n d bm r h => simp_all [decode2, run2, step2, arm2, ofSection, castNat, makeNullable]
+  | hex n u total d es r h1 h =>
+      have := unhexAll_eq h
+      simp_all [decode2, run2, step2, arm2, ofSection, castNat]
+  | hexN n u total d bm es r h1 h =>
+      have := unhexAll_eq h
+      simp_all [decode2, run2, step2, arm2, ofSection, castNat, makeNullable]
   | null n k => simp [decode2, run2, ofSection]
 
-/-! ### section 0 is only read through the stack (except by `UnpackStrings`, finding `…-unpack-section0`) -/
+/-! ### section 0 is only read through the stack -/
 
 theorem step2_sec0 (dec : Section → Section) (a b : Section) (rest : List Section) (op : Op) (st : List SVal)
-    (h1 : op ≠ .unpack) (h2 : op ≠ .push 0) :
+    (h2 : op ≠ .push 0) :
     step2 dec (a :: rest) op st = step2 dec (b :: rest) op st := by
   cases op with
   | push i => cases i with
     | zero => exact absurd rfl h2
     | succ k => simp [step2]
-  | unpack => exact absurd rfl h1
   | _ => rfl
 
 theorem run2_sec0 (dec : Section → Section) (a b : Section) (rest : List Section) (ops : List Op)
-    (h : ∀ op ∈ ops, op ≠ .unpack ∧ op ≠ .push 0) (st : List SVal) :
+    (h : ∀ op ∈ ops, op ≠ .push 0) (st : List SVal) :
     run2 dec (a :: rest) ops st = run2 dec (b :: rest) ops st := by
   induction ops generalizing st with
   | nil => rfl
   | cons op ops ih =>
     have hop := h op (by simp)
-    simp only [run2, step2_sec0 dec a b rest op st hop.1 hop.2]
+    simp only [run2, step2_sec0 dec a b rest op st hop]
     cases step2 dec (b :: rest) op st with
     | error e => rfl
     | ok st' => exact ih (fun o ho => h o (by simp [ho])) st'
@@ -127,21 +148,20 @@ theorem decodeQ_comp {dec : Section → Section} {len : Nat} {ops : List Op} {s0
   simp only [decodeQ, Codec.decode, Col.toQ, List.map_cons, hrun]
 
 theorem decode2_lz4 {dec : Section → Section} {len : Nat} {ops : List Op} {s0 : Section} {rest : List Section}
-    (hp : ∀ op ∈ ops, op ≠ .unpack ∧ op ≠ .push 0) (t : ET) (ht : secET s0 = some t)
-    (hw : t = .u8 ∨ t = .i64 ∨ t = .f64) (n : Nat) (p : List Nat) (tag : Nat) (hdec : dec (.comp p tag) = s0) :
+    (hp : ∀ op ∈ ops, op ≠ .push 0) (t : ET) (ht : secET s0 = some t)
+    (n : Nat) (p : List Nat) (tag : Nat) (hdec : dec (.comp p tag) = s0) :
     decode2 dec ⟨len, .lz4 t n :: ops, .comp p tag :: rest⟩ = decode2 dec ⟨len, ops, s0 :: rest⟩ := by
   have hs : step2 dec (.comp p tag :: rest) (.lz4 t n) [ofSection (.comp p tag)] = .ok [ofSection s0] := by
-    rcases hw with h | h | h <;> subst h <;>
-      simp [step2, ofSection, decompress, hdec, asType_of_secET ht]
+    simp [step2, arm2, ofSection, decompress, hdec, asType_of_secET ht]
   simp only [decode2, run2, hs]
   rw [run2_sec0 dec (.comp p tag) s0 rest ops hp]
 
 theorem decode2_pco {dec : Section → Section} {len : Nat} {ops : List Op} {s0 : Section} {rest : List Section}
-    (hp : ∀ op ∈ ops, op ≠ .unpack ∧ op ≠ .push 0) (t : ET) (ht : secET s0 = some t)
+    (hp : ∀ op ∈ ops, op ≠ .push 0) (t : ET) (ht : secET s0 = some t)
     (n : Nat) (fp : Bool) (p : List Nat) (tag : Nat) (hdec : dec (.comp p tag) = s0) :
     decode2 dec ⟨len, .pco t n fp :: ops, .comp p tag :: rest⟩ = decode2 dec ⟨len, ops, s0 :: rest⟩ := by
   have hs : step2 dec (.comp p tag :: rest) (.pco t n fp) [ofSection (.comp p tag)] = .ok [ofSection s0] := by
-    simp [step2, ofSection, decompress, hdec, asType_of_secET ht]
+    simp [step2, arm2, ofSection, decompress, hdec, asType_of_secET ht]
   simp only [decode2, run2, hs]
   rw [run2_sec0 dec (.comp p tag) s0 rest ops hp]
 
@@ -155,37 +175,16 @@ theorem decodeQ_img {dec : Section → Section} {c : Col} {v : SVal} (h : Img de
   | pco h t ht n fp p tag hdec =>
       rw [decodeQ_comp (base_no_push0 h) (.pco t n fp) rfl p tag hdec]; exact decodeQ_base h
 
-theorem supported_tail_lz4 {t : ET} {n : Nat} {ops : List Op} (h : Supported (.lz4 t n :: ops) = true) :
-    Supported ops = true ∧ hasUnpack ops = false ∧ (t = .u8 ∨ t = .i64 ∨ t = .f64) := by
-  cases t <;> simp_all [Supported, hasUnhex, lz4Narrow, unpackCompressed, hasUnpack, compressed,
-    elementwiseAfterNullable]
-  all_goals (cases ops <;> simp_all [compressed]) 
-
-theorem supported_tail_pco {t : ET} {n : Nat} {fp : Bool} {ops : List Op} (h : Supported (.pco t n fp :: ops) = true) :
-    Supported ops = true ∧ hasUnpack ops = false := by
-  simp_all [Supported, hasUnhex, lz4Narrow, unpackCompressed, hasUnpack, compressed, elementwiseAfterNullable]
-
-theorem no_unpack_of {ops : List Op} (h : hasUnpack ops = false) : ∀ op ∈ ops, op ≠ .unpack := by
-  intro op hop heq
-  subst heq
-  have : hasUnpack ops = true := by
-    simp only [hasUnpack, List.any_eq_true]
-    exact ⟨.unpack, hop, rfl⟩
-  simp [h] at this
-
-/-- The free `decode` agrees with the query path on every builder image with a `Supported` codec:
+/-- The free `decode` agrees with the query path on every builder image:
     all shapes × {plain, lz4, pco}, all lengths, all contents. -/
-theorem decode2_img {dec : Section → Section} {c : Col} {v : SVal} (h : Img dec c v)
-    (hs : Supported c.ops = true) : decode2 dec c = .ok v := by
+theorem decode2_img {dec : Section → Section} {c : Col} {v : SVal} (h : Img dec c v) : decode2 dec c = .ok v := by
   cases h with
-  | plain h => exact decode2_base h hs
+  | plain h => exact decode2_base h
   | lz4 h t ht n p tag hdec =>
-      obtain ⟨hs', hnu, hw⟩ := supported_tail_lz4 hs
-      rw [decode2_lz4 (fun op hop => ⟨no_unpack_of hnu op hop, base_no_push0 h op hop⟩) t ht hw n p tag hdec]
-      exact decode2_base h hs'
+      rw [decode2_lz4 (base_no_push0 h) t ht n p tag hdec]
+      exact decode2_base h
   | pco h t ht n fp p tag hdec =>
-      obtain ⟨hs', hnu⟩ := supported_tail_pco hs
-      rw [decode2_pco (fun op hop => ⟨no_unpack_of hnu op hop, base_no_push0 h op hop⟩) t ht n fp p tag hdec]
-      exact decode2_base h hs'
+      rw [decode2_pco (base_no_push0 h) t ht n fp p tag hdec]
+      exact decode2_base h
 
 end LM.D2
